@@ -256,6 +256,8 @@ def _builtin(fa, b, e, args, kw, env):
     if b in BOOL_FUNCS:
         if b in ('any', 'all') and a0 is not None:
             _consume(fa, b, e, n0, a0, env, kw)
+        if b == 'bool' and a0 is not None:
+            fa.truthtest(n0, a0)
         return VBOOL
     if b in ('range', 'xrange'):
         return V(fresh('range', fa.site(e), VINT))
